@@ -1,8 +1,23 @@
 /-
   C19 — device and channel descriptions are read-only apart from enable and divider.
-  Property theorems only (helper lemmas in Lemmas/).
+  Property theorems only (helper lemmas in Lemmas/Record.lean).
   A record is its instance `__dict__` (Record.Dict); construction replays the generated
-  `__init__`/`__post_init__` assignment orders; `args` are the constructor arguments.
+  `__init__`/`__post_init__` assignment orders; `args` are the constructor arguments (any Python
+  values: `Record.Val`), `ty` / `flags` the type byte / device flags (unbounded naturals).
+
+  Two groups of statements:
+  * on a FRESH record (`mkChan … = .ok d`): construction seals, every name but en/div raises and
+    changes nothing, en/div are assignable with a frame condition, the fields hold what was given;
+    `setattr_ignores_value`: the assigned value plays no part in any of this;
+  * over HISTORIES (`*_sealed_invariant`): for every list of assignment attempts (any names, any
+    values, interleaved with copies of the record — the library's own en/div updates are such
+    assignments) the record afterwards IS a freshly constructed record of the same identifying
+    arguments, so the first group applies again at every point of every history.
+
+  Not covered, on purpose (not "assigning to a field"): `del rec._initdone` (the classes define no
+  `__delattr__`: deleting the marker falls back to the class default False and unseals the
+  record), writes through `rec.__dict__` / `object.__setattr__`, and `setattr()` with a `str`
+  subclass whose `__eq__` lies as the attribute name.
 -/
 import NxsModel.Record
 import NxsModel.Lemmas.Record
@@ -10,54 +25,131 @@ namespace Nxs.C19
 open Nxs Nxs.Record
 
 /-- construction always succeeds and ends with the record sealed -/
-theorem chan_constructs (args : String → Int) (ty : Nat) :
+theorem chan_constructs (args : String → Record.Val) (ty : Nat) :
     ∃ d, mkChan args ty = .ok d ∧ initDone d = true := Record.chan_constructs args ty
 
-theorem dev_constructs (args : String → Int) (flags : Nat) :
+theorem dev_constructs (args : String → Record.Val) (flags : Nat) :
     ∃ d, mkDev args flags = .ok d ∧ initDone d = true := Record.dev_constructs args flags
 
 /-- every attribute other than `en` and `div` — identifying fields, derived attributes, the init
     marker, and names that are not fields at all — raises TypeError (and, `Except` returning no new
-    state, leaves the record unchanged) -/
-theorem chan_readonly (args : String → Int) (ty : Nat) (d : Dict) (name : String) (v : Int)
+    state, leaves the record unchanged), whatever the value -/
+theorem chan_readonly (args : String → Record.Val) (ty : Nat) (d : Dict) (name : String) (v : Record.Val)
     (hd : mkChan args ty = .ok d) (hn : name ≠ "en" ∧ name ≠ "div") :
     setattr Gen.Record.chanAllow d name v = .error .typeError :=
   Record.chan_readonly args ty d name v hd hn
 
 /-- `en` and `div` remain assignable, and assigning them changes nothing else -/
-theorem chan_en_div_assignable (args : String → Int) (ty : Nat) (d : Dict) (name : String) (v : Int)
+theorem chan_en_div_assignable (args : String → Record.Val) (ty : Nat) (d : Dict) (name : String) (v : Record.Val)
     (hd : mkChan args ty = .ok d) (hn : name = "en" ∨ name = "div") :
     ∃ d', setattr Gen.Record.chanAllow d name v = .ok d' ∧ d'.get? name = some v ∧
       ∀ k, k ≠ name → d'.get? k = d.get? k :=
   Record.chan_en_div_assignable args ty d name v hd hn
 
 /-- every device-level attribute is read-only -/
-theorem dev_readonly (args : String → Int) (flags : Nat) (d : Dict) (name : String) (v : Int)
+theorem dev_readonly (args : String → Record.Val) (flags : Nat) (d : Dict) (name : String) (v : Record.Val)
     (hd : mkDev args flags = .ok d) :
     setattr Gen.Record.devAllow d name v = .error .typeError :=
   Record.dev_readonly args flags d name v hd
 
 /-- the constructed channel record holds the constructor arguments and the derived attributes -/
-theorem chan_fields (args : String → Int) (ty : Nat) (d : Dict) (hd : mkChan args ty = .ok d) :
-    d.get? "chan" = some (args "chan") ∧ d.get? "_type" = some (ty : Int) ∧
+theorem chan_fields (args : String → Record.Val) (ty : Nat) (d : Dict) (hd : mkChan args ty = .ok d) :
+    d.get? "chan" = some (args "chan") ∧ d.get? "_type" = some (.int (ty : Int)) ∧
     d.get? "vdim" = some (args "vdim") ∧ d.get? "name" = some (args "name") ∧
     d.get? "en" = some (args "en") ∧ d.get? "div" = some (args "div") ∧
     d.get? "mlen" = some (args "mlen") ∧
-    d.get? "dtype" = some ((Info.dtypeOf ty : Nat) : Int) ∧
-    d.get? "critical" = some (b2i (Info.criticalOf ty)) ∧
-    d.get? "type_res" = some ((Info.typeResOf ty : Nat) : Int) ∧
-    d.get? "is_valid" = some (b2i (Info.isValidOf ty)) ∧
-    d.get? "is_numerical" = some (b2i (Info.isNumericalOf ty)) := Record.chan_fields args ty d hd
+    d.get? "dtype" = some (.int (Info.dtypeOf ty)) ∧
+    d.get? "critical" = some (.bool (Info.criticalOf ty)) ∧
+    d.get? "type_res" = some (.int (Info.typeResOf ty)) ∧
+    d.get? "is_valid" = some (.bool (Info.isValidOf ty)) ∧
+    d.get? "is_numerical" = some (.bool (Info.isNumericalOf ty)) := Record.chan_fields args ty d hd
 
-theorem dev_fields (args : String → Int) (flags : Nat) (d : Dict) (hd : mkDev args flags = .ok d) :
-    d.get? "chmax" = some (args "chmax") ∧ d.get? "flags" = some (flags : Int) ∧
+theorem dev_fields (args : String → Record.Val) (flags : Nat) (d : Dict) (hd : mkDev args flags = .ok d) :
+    d.get? "chmax" = some (args "chmax") ∧ d.get? "flags" = some (.int (flags : Int)) ∧
     d.get? "rxpadding" = some (args "rxpadding") ∧
-    d.get? "div_supported" = some (b2i (Info.divSupported flags)) ∧
-    d.get? "ack_supported" = some (b2i (Info.ackSupported flags)) := Record.dev_fields args flags d hd
+    d.get? "div_supported" = some (.bool (Info.divSupported flags)) ∧
+    d.get? "ack_supported" = some (.bool (Info.ackSupported flags)) := Record.dev_fields args flags d hd
 
-example : (mkChan (fun _ => 7) 0x8a).bind (fun d => setattr Gen.Record.chanAllow d "chan" 9) = .error .typeError := by
+/-- `__setattr__` never looks at the assigned value (on ANY record state, sealed or not, for any
+    allow-list): whether it raises is the same for any two values `v`, `w` — `None`, `True`, an
+    `int` of any size, a `str`, any other object —, and when it does not raise the record
+    afterwards holds exactly the value given -/
+theorem setattr_ignores_value (allow : List String) (d : Dict) (name : String) (v w : Record.Val) :
+    ((setattr allow d name v).toOption.isSome = (setattr allow d name w).toOption.isSome) ∧
+    (setattr allow d name v = .error .typeError ↔ setattr allow d name w = .error .typeError) ∧
+    (∀ d', setattr allow d name v = .ok d' → d' = d.set name v) :=
+  Record.setattr_ignores_value allow d name v w
+
+/-- histories on a channel record.  For every record built by `mkChan` and every list `h` of steps
+    (assignment attempts with any names and any values, and copies), the record afterwards
+    * is exactly the record `mkChan` builds from the same arguments with en / div replaced by the
+      last value assigned to them (so it is sealed, and `chan_readonly`, `chan_en_div_assignable`,
+      `chan_fields` hold of it again),
+    * is sealed, has the same attribute names in the same order,
+    * holds the initial value of every attribute other than en / div (identifying fields, derived
+      attributes, the marker; `none` for names that are no attribute),
+    * holds in en / div the last value assigned to them (the constructor's if none was),
+    and the steps that went through are exactly the copies and the assignments to en / div. -/
+theorem chan_sealed_invariant (args : String → Record.Val) (ty : Nat) (d : Dict) (h : List Step)
+    (hd : mkChan args ty = .ok d) :
+    mkChan (argsAfter args h) ty = .ok (runHistory Gen.Record.chanAllow d h) ∧
+    initDone (runHistory Gen.Record.chanAllow d h) = true ∧
+    (runHistory Gen.Record.chanAllow d h).keys = d.keys ∧
+    (∀ k, k ≠ "en" → k ≠ "div" → (runHistory Gen.Record.chanAllow d h).get? k = d.get? k) ∧
+    (runHistory Gen.Record.chanAllow d h).get? "en" = some ((lastAssigned "en" h).getD (args "en")) ∧
+    (runHistory Gen.Record.chanAllow d h).get? "div" = some ((lastAssigned "div" h).getD (args "div")) ∧
+    (runTrace Gen.Record.chanAllow d h).map (·.1) =
+      h.map (fun s => match s with | .assign k _ => decide (k = "en" ∨ k = "div") | .copy => true) := by
+  rw [mkChan_inv hd, chan_history_closed, mkChan_eq, chan_trace_closed]
+  refine ⟨rfl, initDone_chanClosed _ _, rfl, ?_, ?_, ?_, rfl⟩
+  · intro k h1 h2
+    have e1 : ¬ "en" = k := fun e => h1 e.symm
+    have e2 : ¬ "div" = k := fun e => h2 e.symm
+    simp [chanClosed, get?_cons, e1, e2, argsAfter]
+  · simp [chanClosed, get?_cons, argsAfter_en]
+  · simp [chanClosed, get?_cons, argsAfter_div]
+
+/-- histories on a device record: no history changes it at all (same `__dict__`, hence sealed and
+    every field at its initial value), and no assignment of any history goes through -/
+theorem dev_sealed_invariant (args : String → Record.Val) (flags : Nat) (d : Dict) (h : List Step)
+    (hd : mkDev args flags = .ok d) :
+    runHistory Gen.Record.devAllow d h = d ∧ initDone (runHistory Gen.Record.devAllow d h) = true ∧
+    (runTrace Gen.Record.devAllow d h).map (·.1) =
+      h.map (fun s => match s with | .assign _ _ => false | .copy => true) := by
+  rw [mkDev_inv hd, dev_history_closed, dev_trace_closed]
+  exact ⟨rfl, initDone_devClosed _ _, rfl⟩
+
+/-- the inductive invariant behind both, for ANY sealed record state and ANY allow-list that does
+    not name the marker: no history unseals the record or changes an attribute outside the list -/
+theorem sealed_invariant (allow : List String) (h : List Step) (d : Dict)
+    (hd : initDone d = true) (hm : allow.contains "_initdone" = false) :
+    initDone (runHistory allow d h) = true ∧
+    (∀ k, allow.contains k = false → (runHistory allow d h).get? k = d.get? k) :=
+  Record.history_sealed allow h d hd hm
+
+/-! non-vacuity: the hypotheses are satisfiable, and the statements are about records that do change -/
+
+def exArgs : String → Record.Val := fun k => if k = "name" then .str "ch" else if k = "en" then .bool false else 7
+
+example : ∃ d, mkChan exArgs 0x8a = .ok d := ⟨_, mkChan_eq _ _⟩
+example : ∃ d, mkDev exArgs 3 = .ok d := ⟨_, mkDev_eq _ _⟩
+example : ∃ d, initDone d = true ∧ Gen.Record.chanAllow.contains "_initdone" = false :=
+  ⟨chanClosed exArgs 0, initDone_chanClosed _ _, by decide⟩
+example : (mkChan exArgs 0x8a).bind (fun d => setattr Gen.Record.chanAllow d "chan" 9) = .error .typeError := by
   decide +kernel
-example : ((mkChan (fun _ => 7) 0x8a).bind (fun d => setattr Gen.Record.chanAllow d "en" 1)).toOption.isSome = true := by
+example : (mkChan exArgs 0x8a).bind (fun d => setattr Gen.Record.chanAllow d "vdim" .none) = .error .typeError := by
   decide +kernel
+example : ((mkChan exArgs 0x8a).bind (fun d => setattr Gen.Record.chanAllow d "en" (.bool true))).toOption.isSome = true := by
+  decide +kernel
+/-- a history that tries to clear the marker, assigns en twice, copies, and tries an identifying field -/
+def exHist : List Step :=
+  [.assign "_initdone" (.bool false), .assign "en" (.bool true), .assign "chan" .none, .copy,
+   .assign "en" (.other true 3), .assign "div" (.int (2 ^ 64)), .assign "dtype" (.str "x")]
+example : (mkChan exArgs 0x8a).map (fun d => (runTrace Gen.Record.chanAllow d exHist).map (·.1)) =
+    .ok [false, true, false, true, true, true, false] := by decide +kernel
+example : (mkChan exArgs 0x8a).map (fun d => (runHistory Gen.Record.chanAllow d exHist).get? "en") =
+    .ok (some (.other true 3)) := by decide +kernel
+example : (mkChan exArgs 0x8a).map (fun d => (runHistory Gen.Record.chanAllow d exHist).get? "chan") =
+    .ok (some 7) := by decide +kernel
 
 end Nxs.C19
